@@ -1,9 +1,58 @@
 import Driver.Util
+import Mtv.Envelope.Exec
 namespace Driver.C03
-open Mtv Driver
+open Mtv Mtv.Envelope Mtv.Envelope.Exec Driver
 
-/-- operations of property C03; not built yet -/
+def showUnenc : Except Unenc.DErr (Nat × Bytes) → String
+  | .ok (mid, body) => s!"ok mid={mid} body={showB body}"
+  | .error .parity => "err:unencParity"
+  | .error .length => "err:unencLength"
+
+/-- operations of property C03 (see harness/cmd/vh/c03.go for the Go side of each) -/
 def handle : List String → String
+  -- Encrypted.Serialize
+  | ["c03.seal", key, salt, sid, mid, seq, ack, body] =>
+    match parseTok? key, salt.toNat?, sid.toNat?, mid.toNat?, seq.toNat?, parseTok? body with
+    | some key, some salt, some sid, some mid, some seq, some body =>
+      if ack ≠ "0" ∧ ack ≠ "1" then "bad-op" else
+      showOutcome (fun pkt => s!"keyid={showB (pkt.take 8)} msgkey={showB (slice pkt 8 24)} ct={showB (pkt.drop 24)}")
+        (sealClient prims key salt sid mid seq (ack = "1") body)
+    | _, _, _, _, _, _ => "bad-op"
+  -- a packet sealed by the specification's server, opened by DeserializeEncrypted
+  | ["c03.open", key, salt, sid, mid, seq, body, pad] =>
+    match parseTok? key, salt.toNat?, sid.toNat?, mid.toNat?, seq.toNat?, parseTok? body, parseTok? pad with
+    | some key, some salt, some sid, some mid, some seq, some body, some pad =>
+      let pkt := Spec.serverSeal prims key ⟨salt, sid, mid, seq, body⟩ pad
+      s!"pkt={showB pkt} " ++ showOutcome showMsg (openClient prims key pkt)
+    | _, _, _, _, _, _, _ => "bad-op"
+  -- generateAESIGE
+  | ["c03.kdf", x, mk, ak] =>
+    match parseTok? mk, parseTok? ak with
+    | some mk, some ak =>
+      if x ≠ "0" ∧ x ≠ "8" then "bad-op" else
+      showOutcome (fun kv => s!"key={toHexD kv.1} iv={toHexD kv.2}") (kdf prims (if x = "8" then 8 else 0) mk ak)
+    | _, _ => "bad-op"
+  | ["c03.msgkey", d] =>
+    match parseTok? d with
+    | some d => "msgkey=" ++ toHexD (msgKey prims d)
+    | none => "bad-op"
+  | ["c03.keyid", d] =>
+    match parseTok? d with
+    | some d => "keyid=" ++ toHexD (authKeyId prims d)
+    | none => "bad-op"
+  -- Unencrypted.Serialize / DeserializeUnencrypted
+  | ["c03.userial", mid, body] =>
+    match mid.toNat?, parseTok? body with
+    | some mid, some body => "bytes=" ++ showB (Unenc.serialize mid body)
+    | _, _ => "bad-op"
+  | ["c03.udeser", d] =>
+    match parseTok? d with
+    | some d => showUnenc (Unenc.deserialize d)
+    | none => "bad-op"
+  | ["c03.urt", mid, body] =>
+    match mid.toNat?, parseTok? body with
+    | some mid, some body => showUnenc (Unenc.deserialize (Unenc.serialize mid body))
+    | _, _ => "bad-op"
   | _ => "bad-op"
 
 end Driver.C03
